@@ -46,9 +46,9 @@ pub fn v_board<N: Nd>(n: &mut N, a: u32) {
 pub fn v_fresh<N: Nd>(n: &mut N, a: u32, c: u8) {
     let p = sym_pos(n);
     n.assume(one_king_each(&p));
-    if a < 16 {
-        n.assume(aligned_sliders(&p, c as usize).count_ones() <= a);
-    }
+    // raw boards may hold more than 16 pieces of a colour; the constructors only reach this code after the piece-count
+    // checks, so a = 16 is "no bound" for every board that can actually be constructed
+    n.assume(aligned_sliders(&p, c as usize).count_ones() <= a);
     if n.native() {
         println!("witness: raw board \"{}\" colour {}", fen(&p, 0, 1), c);
     }
@@ -64,9 +64,7 @@ pub fn v_fresh<N: Nd>(n: &mut N, a: u32, c: u8) {
 pub fn v_ckpin<N: Nd>(n: &mut N, a: u32) {
     let p = sym_pos(n);
     n.assume(one_king_each(&p));
-    if a < 16 {
-        n.assume(aligned_sliders(&p, p.stm as usize).count_ones() <= a);
-    }
+    n.assume(aligned_sliders(&p, p.stm as usize).count_ones() <= a);
     if n.native() {
         println!("witness: raw board \"{}\"", fen(&p, 0, 1));
     }
